@@ -26,7 +26,7 @@ use crate::util::{catch, json, write_summary, Args, Rng, TraceOut, Value};
 // transport encoding
 
 /// base-2^15 limbs of the number whose little-endian 64-bit words are `ds`
-fn limbs(ds: &[u64]) -> Vec<u32> {
+pub fn limbs(ds: &[u64]) -> Vec<u32> {
     let nbits = ds.len() * 64;
     let mut out = Vec::with_capacity(nbits / 15 + 1);
     let mut p = 0usize;
@@ -45,14 +45,14 @@ fn limbs(ds: &[u64]) -> Vec<u32> {
     }
     out
 }
-fn limbs64(x: u64) -> Vec<u32> {
+pub fn limbs64(x: u64) -> Vec<u32> {
     limbs(&[x])
 }
-fn limbs128(x: u128) -> Vec<u32> {
+pub fn limbs128(x: u128) -> Vec<u32> {
     limbs(&[x as u64, (x >> 64) as u64])
 }
 
-fn nat_json(n: &Natural) -> Value {
+pub fn nat_json(n: &Natural) -> Value {
     if n.is_nan() {
         json!({"nan": true, "m": [], "e": []})
     } else {
@@ -292,7 +292,7 @@ fn nat_try(h: &mut Hist, a: &Natural) {
     h.emit(json!({"ev": "nat_try", "ty": "u128", "a": ja, "res": r128}));
 }
 
-fn f64_json(x: f64) -> Value {
+pub fn f64_json(x: f64) -> Value {
     let b = x.to_bits();
     json!({"s": (b >> 63) as u32, "x": ((b >> 52) & 0x7ff) as u32, "f": limbs64(b & ((1u64 << 52) - 1))})
 }
@@ -708,7 +708,7 @@ fn natural_clone(args: &Args) {
 // ---------------------------------------------------------------------------
 // I64
 
-fn i64_json(x: &I64) -> Value {
+pub fn i64_json(x: &I64) -> Value {
     match x {
         I64::Num(n) => json!({"t": "num", "bits": limbs64(*n as u64)}),
         I64::PlusInf => json!({"t": "pinf", "bits": []}),
@@ -854,7 +854,7 @@ fn num_i64(args: &Args) {
 // ---------------------------------------------------------------------------
 // F64 (terminal type of oxidd-rules-mtbdd)
 
-fn tf64_json(x: &F64) -> Value {
+pub fn tf64_json(x: &F64) -> Value {
     f64_json(f64::from(*x))
 }
 
